@@ -238,6 +238,13 @@ class Formula:
             return
         if l["kind"] == "DeclRefExpr":
             nm = l["ref"]["name"]
+            if self.lenient and nm in self.alias and not any(p_["name"] == nm for p_ in self.f.params):
+                r_ = self.root(rhs)
+                if r_ is None:
+                    self.alias.pop(nm, None)
+                else:
+                    self.alias[nm] = r_
+                return
             v = self.ev(rhs)
             if kind == "=":
                 self.env[nm] = v
@@ -388,6 +395,10 @@ class Formula:
                         if t0["kind"] == "DeclRefExpr" and t0["ref"]["name"] not in self.alias and \
                                 t0["ref"]["name"] not in self.local_structs:
                             self.env[t0["ref"]["name"]] = None        # a scalar local chosen by an undecided test: opaque
+                            continue
+                        if t0["kind"] == "DeclRefExpr" and self.lenient and t0["ref"]["name"] in self.alias and \
+                                not any(p_["name"] == t0["ref"]["name"] for p_ in self.f.params):
+                            self.alias.pop(t0["ref"]["name"], None)   # a pointer local re-pointed conditionally: names nothing
                             continue
                         key = self.lkey(kids(y)[0])
                         if key is None or key[1] not in self.opaque:
